@@ -81,8 +81,10 @@ def check_events(ev):
     body = ev[1:-1]
     i = 0
     started = []
+    bound = {}
     while i < len(body) and body[i][0] == "startPrefixMapping":
         started.append(body[i][1])
+        bound[body[i][1]] = body[i][2]
         i += 1
     j = len(body)
     ended = []
@@ -102,6 +104,10 @@ def check_events(ev):
             for k, q in e[4].items():
                 if k[0] is not None and q is not None and q.split(":")[-1] != k[1]:
                     return "qname %r does not match attribute %r" % (q, k), None
+                if k[0] is not None and q is not None and ":" in q and bound.get(q.split(":")[0]) != k[0]:
+                    # (the prefix mappings are part of the event stream: a qname whose prefix is bound to another
+                    # namespace than the attribute's makes the stream inconsistent for every namespace-aware consumer)
+                    return "attribute %r is delivered with qname %r but prefix %r is bound to %r" % (k, q, q.split(":")[0], bound.get(q.split(":")[0])), None
             stack[-1][1].append(["elem", name[0], name[1], e[3], kids])
             stack.append((name, kids))
         elif e[0] == "endElementNS":
@@ -166,6 +172,14 @@ def replay(harness, config, case):
     return execute(config, case)
 
 
+def _sweep_shard(texts):
+    out = []
+    for w in texts:
+        j = judge(w, None)
+        out.append(None if j is None else engine.Violation(H, {"theme": "tables", "container": None}, w, j[2], j[3], j[0], "tables:" + j[1]))
+    return out
+
+
 def run(run):
     c11.explore(run, step, run.tier == "quick")
     for w in c11.WITNESSES + ["<svg><a xlink:href=x xml:lang=y xmlns:xlink=z>t</a><br/></svg>", "<math definitionurl=a><mi>"]:
@@ -174,5 +188,13 @@ def run(run):
             j = judge(w, container)
             if j is not None:
                 run.violation(engine.Violation(H, {"theme": "witness", "container": container}, w, j[2], j[3], j[0], j[1]))
+    # every entry of the standard's foreign-attribute / SVG fix-up tables, every foreign scoping element (flat sweep)
+    from checks import treewords as tw
+    cases = tw.foreign_cases()
+    for vs in engine.pmap(_sweep_shard, [cases[i:i + 40] for i in range(0, len(cases), 40)], chunksize=1):
+        for v in vs:
+            run.add("table_sweep_words")
+            if v is not None:
+                run.violation(v)
     run.set("streams_per_word", 12)
     return run.finish("model_checking")
